@@ -62,4 +62,14 @@ META = {
         "level_text": "Exploration: the expected change set of every version is computed from the op log and the versioned-map model and compared with TraverseStateChanges for drawn ranges; all sets are replayed into an empty tree (contents always, reference hashes when the original history was in normal form - a third of the cases); removal of a missing key must be rejected without creating a version.",
         "level_note": _TB + "Only versions whose predecessor is retained (or the first version ever, predecessor = empty tree) are constrained, as the property states; the inclusive/exclusive end of the range is accepted either way (doc comment and code disagree).",
     },
+    "C10": {
+        "technique": "model-based round-trip property testing (export/import hops inside generated histories) + structure-aware hostile stream generation for the importers",
+        "level_text": "Exploration: (a) generated histories hop through Exporter->Importer (plain and compressed) at any retained version; the exported stream is compared node by node with the reference post-order, the imported store with the reference (hash, contents, proofs, raw reachability, only the imported version visible) and every later commit with the reference hash. (b) hostile / random ExportNode streams: no panic, no hang, error-or-commit, nothing visible unless Commit succeeded; streams larger than one 10000-node import batch committed / closed / failing late.",
+        "level_note": _TB + "Open finding F18 (an aborted import that already flushed a batch leaves node entries that fake a version) is steered around in the search tier and shown by the replay tier. The importer allocates a nonce table of size version+1, so hops are generated only below version 2^20.",
+    },
+    "C11": {
+        "technique": "property-based testing with insertion-order profiles; exhaustive rank/key inverse per tree; storage-read counting through the seam",
+        "level_text": "Exploration: for every version of generated trees (up to 3000 keys in the thorough tier) height and size equal the reference tree's and meet the AVL bound, rank and key lookups are inverse for all keys and ranks, and storage reads with nothing cached stay within 2h+2 (10h+10 for proofs).",
+        "level_note": _TB + "Reads are counted as Get/Has calls on the storage wrapper with cache size 0 and a fresh ImmutableTree per measurement (child pointers are cached in node objects otherwise).",
+    },
 }
